@@ -67,6 +67,25 @@ func TestSim(t *testing.T) {
 		// reported anything; race reports are this harness's data, not its failure
 		fmt.Println("PASS")
 		os.Exit(0)
+	case "triage":
+		ok := kernel.Triage(kernel.WorkerCfg{Prop: p, Tier: tier, Seed: seed, Worker: int(envInt("VERIF_WORKER", 0)), Workers: int(envInt("VERIF_WORKERS", 1)),
+			OutPath: os.Getenv("VERIF_OUT"), ReplayDir: os.Getenv("VERIF_REPLAYS"), Findings: findings}, os.Getenv("VERIF_WORKER_LOG"))
+		if ok {
+			fmt.Println("TRIAGE: the worker died inside the code under test; recorded as a violation")
+			os.Exit(0)
+		}
+		fmt.Println("TRIAGE: not attributable to the code under test")
+		os.Exit(2)
+	case "crashcheck":
+		// after a replay process died: is the crash the recorded one?
+		logb, _ := os.ReadFile(os.Getenv("VERIF_WORKER_LOG"))
+		what, fn := kernel.ParseCrash(string(logb), "github.com/go-openapi/runtime")
+		if fn != "" {
+			fmt.Printf("  violation: %s/fatal-crash [%s] %s\n", p.ID(), fn, what)
+			fmt.Printf("VIOLATION property=%s replay=%s\n", p.ID(), os.Getenv("VERIF_REPLAY"))
+			os.Exit(1)
+		}
+		os.Exit(2)
 	case "merge":
 		var build map[string]any
 		_ = json.Unmarshal([]byte(os.Getenv("VERIF_BUILDINFO")), &build)
